@@ -273,6 +273,8 @@ type wantConn struct {
 	mu    sync.Mutex // protects conn, err, close(ready)
 	conn  *clientConn
 	err   error
+	// fresh: conn was dialed for this waiter and has never been idle in the pool
+	fresh bool
 }
 
 // DoTimeout performs the given request and waits for response during
@@ -926,7 +928,9 @@ func (c *HostClient) acquireConn(dialTimeout, reqTimeoutLeft time.Duration) (cc 
 
 		select {
 		case <-w.ready:
-			return w.conn, true, w.err
+			// a failure on a connection that was just dialed is no keep-alive race:
+			// it must not be taken for a bad pool connection and repeated
+			return w.conn, !w.fresh, w.err
 		case <-tc.C:
 			if timeoutOverridden {
 				return nil, true, errTimeout
@@ -970,7 +974,7 @@ func (c *HostClient) dialConnFor(w *wantConn) {
 	}
 
 	cc := acquireClientConn(conn)
-	delivered := w.tryDeliver(cc, nil)
+	delivered := w.deliver(cc, nil, true)
 	if !delivered {
 		// not delivered, return idle connection
 		c.releaseConn(cc)
@@ -1312,6 +1316,11 @@ func (w *wantConn) waiting() bool {
 
 // tryDeliver attempts to deliver conn, err to w and reports whether it succeeded.
 func (w *wantConn) tryDeliver(conn *clientConn, err error) bool {
+	return w.deliver(conn, err, false)
+}
+
+// deliver is tryDeliver; fresh says that conn was dialed for w (see wantConn.fresh).
+func (w *wantConn) deliver(conn *clientConn, err error, fresh bool) bool {
 	w.mu.Lock()
 	defer w.mu.Unlock()
 
@@ -1320,6 +1329,7 @@ func (w *wantConn) tryDeliver(conn *clientConn, err error) bool {
 	}
 	w.conn = conn
 	w.err = err
+	w.fresh = fresh
 	if w.conn == nil && w.err == nil {
 		panic("hertz: internal error: misuse of tryDeliver")
 	}
